@@ -1,0 +1,12 @@
+//go:build verif
+
+package gen
+
+// Verification hooks for property C17 (add-only, compiled with -tags verif only): the functions that pick
+// the element type of the generated tables (template functions bits_per_element and bits).
+
+// VerifBitsPerElement exposes bitsPerElement.
+func VerifBitsPerElement(arr []int) int { return bitsPerElement(arr) }
+
+// VerifBits exposes bits.
+func VerifBits(i int) int { return bits(i) }
